@@ -217,6 +217,11 @@ def traces_for(mod, metas, subset):
                 cls = getattr(cls, p)
             if names[0] in arg_types:
                 arg_types[names[0]] = cls if m["recv"] == "self" else type
+        elif m["path"] and names and names[0] in arg_types and m["kind"] != "property":
+            # a static method (no receiver) whose FIRST argument happened to be a class object
+            from typing import Type
+
+            arg_types[names[0]] = Type[int]
         if m["kind"] in ("generator", "asyncgen"):
             out.append(CallTrace(func, arg_types, None, int))
         else:
